@@ -307,11 +307,12 @@ class C(Contract):
         super().__init__(func, **kw)
         if label:
             self.frame_name = label
+        self.canary_path_limit = 60  # vacuity canary: a sample of the enumerated cases is enough
 
-    def verify(self, reg, mutate_goal=None):
+    def verify(self, reg, mutate_goal=None, **kw):
         CANARY[0] = mutate_goal is not None
         try:
-            return super().verify(reg, mutate_goal)
+            return super().verify(reg, mutate_goal, **kw)
         finally:
             CANARY[0] = False
 
@@ -1777,14 +1778,21 @@ def rt_validators(inp):
     arr = np.arange(float(np.prod(_shape(nd_)))).reshape(_shape(nd_)) if nd_ else np.array(1.0)
     for src in ([arr, arr.tolist()] if nd_ else [arr]):
         for clsname, k in [("Dataset", None)] + list(FIXED.items()):
+            ov = value if kind != "nested" else vals
+            sv = 7 if kind in ("scalar", "int") else type(ov)(np.asarray(ov) * 2 + 1) if not isinstance(ov, np.ndarray) else np.asarray(ov) * 2 + 1
+            tgt = nd_ if k is None else max(k, nd_)
             try:
-                ds = _real_cls(clsname).from_array(src, origin=value if kind != "nested" else vals, sampling=value if kind != "nested" else vals, units=uv)
+                ds = _real_cls(clsname).from_array(src, origin=ov, sampling=sv, units=uv)
             except (ValueError, TypeError):
-                tgt = nd_ if k is None else max(k, nd_)
                 if not (expect_raise or (k is not None and nd_ > k) or (kind not in ("scalar", "int") and L != tgt)):
                     problems.append(f"{clsname}.from_array raised for a valid {nd_}-d input ({kind})")
                 continue
             problems += [f"{clsname}.from_array({nd_}-d, {kind}, len {L}): {p}" for p in _inv_problems(ds)]
+            if (k is not None and nd_ > k) or (kind not in ("scalar", "int") and L != tgt):
+                problems.append(f"{clsname}.from_array accepted {L} calibration entries / a {nd_}-d array for ndim {tgt}")
+            elif not (np.array_equal(ds.origin, np.full(tgt, ov) if np.isscalar(ov) else np.asarray(ov)) and np.array_equal(ds.sampling, np.full(tgt, sv) if np.isscalar(sv) else np.asarray(sv))
+                      and ds.units == ([uv] * tgt if isinstance(uv, str) else list(uv))):
+                problems.append(f"{clsname}.from_array({kind}): stored calibration origin={ds.origin.tolist()} sampling={ds.sampling.tolist()} units={ds.units} differs from the arguments")
     x = np.zeros(_shape(nd_)) if nd_ else np.array(0.0)
     for want in (None, 0, 1, 2, 3, 4, 5):
         try:
